@@ -1,5 +1,174 @@
-import SemVerif.Spec.Preds
-import SemVerif.Inventory
-/-! # Property C05 — theorems (under construction) -/
+import SemVerif.Props.C10Res
+import SemVerif.Props.C11
+/-!
+# Property C05 — the instruction stack preserves the program's control flow (partial)
+
+The agreement of the jump program with the structured source for every outcome sequence
+(`Spec/Flow.lean`, DESIGN §3.4) is decided on the implementation by the correspondence run
+(predicate `P_C05`: both interpreters on every generated function, all outcome strings up to a
+bound); the simulation theorem between the two interpreters is not written.
+
+What *is* proved here, for every accepted program and every function that does not match the
+recorded finding F3 — `C05_jump_program_wellformed`: the emitted stack is a well-formed jump program:
+for every outcome sequence, every fuel and every start position inside the stack, execution never
+jumps to a label that is not set (`badLabel`) and never runs past the last instruction (`fellOff`).
+These are the first two clauses of `agree`.  From `C10_resolved_function` (every target is set,
+mutual structural induction over the control constructs) and `C11_function` (the last instruction
+of an accepted function is a function return).
+-/
 namespace SemVerif
+
+theorem findLabel_lt {stack : List Instr} {l : Name} {t : Nat} (h : findLabel stack l = some t) : t < stack.length := by
+  unfold findLabel at h
+  rw [List.findIdx?_eq_some_iff_getElem] at h
+  exact h.1
+
+theorem findLabel_of_set {stack : List Instr} {l : Name} (h : l ∈ setLabels stack) : ∃ t, findLabel stack l = some t := by
+  unfold findLabel
+  cases hf : stack.findIdx? (fun i => i.setsLabel == some l) with
+  | some t => exact ⟨t, rfl⟩
+  | none =>
+    rw [List.findIdx?_eq_none_iff] at hf
+    unfold setLabels at h
+    rw [List.mem_filterMap] at h
+    obtain ⟨i, hi, hs⟩ := h
+    have := hf i hi
+    simp [hs] at this
+
+theorem targets_mem {stack : List Instr} {pc : Nat} {i : Instr} (h : stack[pc]? = some i) : ∀ l ∈ i.targets, l ∈ jumpTargets stack := by
+  intro l hl
+  unfold jumpTargets
+  rw [List.mem_flatMap]
+  exact ⟨i, List.mem_of_getElem? h, hl⟩
+
+/-- a stack whose targets are all set and whose last instruction is a function return never
+jumps to an unset label and never falls off its end -/
+theorem runJump_wellformed (stack : List Instr) (hres : ∀ l ∈ jumpTargets stack, l ∈ setLabels stack)
+    (hlast : ∃ i, stack.getLast? = some i ∧ i.isFnReturn = true) :
+    ∀ (fuel pc : Nat) (os : List Bool) (tr : List Nat), pc < stack.length →
+      (runJump stack fuel pc os tr).1 ≠ .badLabel ∧ (runJump stack fuel pc os tr).1 ≠ .fellOff
+  | 0, _, _, _, _ => by unfold runJump; exact ⟨by simp, by simp⟩
+  | fuel + 1, pc, os, tr, hpc => by
+    obtain ⟨li, hli, hlr⟩ := hlast
+    have hget : stack[pc]? = some stack[pc] := List.getElem?_eq_getElem hpc
+    -- a non-return instruction is not the last one
+    have hnext : stack[pc].isFnReturn = false → pc + 1 < stack.length := by
+      intro hnr
+      rcases Nat.lt_or_ge (pc + 1) stack.length with h | h
+      · exact h
+      · exfalso
+        have hp : pc = stack.length - 1 := by omega
+        have : stack.getLast? = some stack[pc] := by
+          rw [List.getLast?_eq_getElem?, ← hp]; exact hget
+        rw [this] at hli
+        injection hli with hli
+        rw [hli, hlr] at hnr; cases hnr
+    have jump : ∀ l, l ∈ stack[pc].targets → ∃ t, findLabel stack l = some t ∧ t < stack.length := by
+      intro l hl
+      obtain ⟨t, ht⟩ := findLabel_of_set (hres l (targets_mem hget l hl))
+      exact ⟨t, ht, findLabel_lt ht⟩
+    unfold runJump
+    rw [hget]
+    dsimp only
+    generalize hi : stack[pc] = i at hnext jump
+    cases i with
+    | jumpTo l =>
+      dsimp only
+      obtain ⟨t, ht, hlt⟩ := jump l (by simp [Instr.targets])
+      rw [ht]
+      exact runJump_wellformed stack hres ⟨li, hli, hlr⟩ fuel t os tr hlt
+    | ifCondExpr x b e =>
+      dsimp only
+      cases os with
+      | nil => exact ⟨by simp, by simp⟩
+      | cons o os =>
+        dsimp only
+        obtain ⟨t, ht, hlt⟩ := jump (if o then b else e) (by cases o <;> simp [Instr.targets])
+        rw [ht]
+        exact runJump_wellformed stack hres ⟨li, hli, hlr⟩ fuel t os tr hlt
+    | ifCondLogic b e r =>
+      dsimp only
+      cases os with
+      | nil => exact ⟨by simp, by simp⟩
+      | cons o os =>
+        dsimp only
+        obtain ⟨t, ht, hlt⟩ := jump (if o then b else e) (by cases o <;> simp [Instr.targets])
+        rw [ht]
+        exact runJump_wellformed stack hres ⟨li, hli, hlr⟩ fuel t os tr hlt
+    | fnReturn x => exact ⟨by simp, by simp⟩
+    | fnReturnWithLabel x => exact ⟨by simp, by simp⟩
+    | jumpFnReturn x => exact ⟨by simp, by simp⟩
+    | _ => exact runJump_wellformed stack hres ⟨li, hli, hlr⟩ fuel (pc + 1) os _ (hnext rfl)
+
+/-- **C05 (partial)** — accepted programs, functions outside finding F3: the emitted stack is a
+well-formed jump program, for every outcome sequence, fuel and start position -/
+theorem C05_jump_program_wellformed (p : Program) (hacc : (run p).accepted = true) :
+    ∀ x ∈ p.fnDecls.zip (run p).roots, x.1.hasF3 = false →
+      ∀ (fuel pc : Nat) (os : List Bool) (tr : List Nat), pc < x.2.context.length →
+        (runJump x.2.context fuel pc os tr).1 ≠ .badLabel ∧ (runJump x.2.context fuel pc os tr).1 ≠ .fellOff := by
+  rintro ⟨f, b⟩ hfb hf3
+  dsimp only at hf3 ⊢
+  have hnp : (run p).panic = none ∧ (run p).errors = [] := by
+    unfold Result.accepted at hacc
+    simpa [Option.isNone_iff_eq_none, List.isEmpty_iff] using hacc
+  have hr : (run p).roots = p.fnDecls.map fun f => (functionBody (pass2 p (pass1 p GState.init)).globals f).root := by
+    unfold run; simp [List.map_map, Function.comp_def, fns_eq_fnDecls p]
+  rw [hr, List.zip_map_right] at hfb
+  simp only [List.mem_map] at hfb
+  obtain ⟨⟨f1, f2⟩, hz, he⟩ := hfb
+  have hff : f1 = f2 := by
+    have : ∀ (l : List FnDecl) (x : FnDecl × FnDecl), x ∈ l.zip l → x.1 = x.2 := by
+      intro l; induction l with
+      | nil => intro x hx; simp at hx
+      | cons a as ih =>
+        intro x hx
+        simp only [List.zip_cons_cons, List.mem_cons] at hx
+        rcases hx with rfl | hx
+        · rfl
+        · exact ih x hx
+    exact this _ _ hz
+  simp only [Prod.map, id, Prod.mk.injEq] at he
+  obtain ⟨rfl, rfl⟩ := he
+  subst hff
+  -- no error in this function
+  have hfe : (functionBody (pass2 p (pass1 p GState.init)).globals f1).errors = [] := by
+    have he := hnp.2
+    unfold run at he
+    dsimp only at he
+    rw [List.append_eq_nil_iff] at he
+    have hfl : ∀ x ∈ (p.fns.map (functionBody (pass2 p (pass1 p GState.init)).globals)).map (·.errors), x = [] := by
+      intro x hx
+      have := he.2
+      rw [List.flatten_eq_nil_iff] at this
+      exact this x hx
+    apply hfl
+    rw [List.mem_map]
+    refine ⟨functionBody (pass2 p (pass1 p GState.init)).globals f1, ?_, rfl⟩
+    rw [List.mem_map]
+    exact ⟨f1, by rw [fns_eq_fnDecls]; exact (List.of_mem_zip hz).1, rfl⟩
+  apply runJump_wellformed
+  · intro l hl
+    rcases Classical.em (l ∈ setLabels (functionBody (pass2 p (pass1 p GState.init)).globals f1).root.context) with h | h
+    · exact h
+    · exfalso
+      have hu : l ∈ unresolvedTargets (functionBody (pass2 p (pass1 p GState.init)).globals f1).root.context := by
+        unfold unresolvedTargets
+        rw [List.mem_eraseDups, List.mem_filter]
+        exact ⟨hl, by simpa using h⟩
+      have := (C10_resolved_function _ f1 l hu).2
+      rw [hf3] at this; cases this
+  · have h11 := C11_function (pass2 p (pass1 p GState.init)).globals f1 0 hfe
+    unfold P_C11_block at h11
+    dsimp only at h11
+    rw [List.append_eq_nil_iff] at h11
+    have h1 := (List.append_eq_nil_iff.mp (List.append_eq_nil_iff.mp h11.1).1).1
+    cases hl : (functionBody (pass2 p (pass1 p GState.init)).globals f1).root.context.getLast? with
+    | none => rw [hl] at h1; simp at h1
+    | some i =>
+      rw [hl] at h1
+      refine ⟨i, rfl, ?_⟩
+      cases hi : i.isFnReturn with
+      | true => rfl
+      | false => simp [hi] at h1
+
 end SemVerif
